@@ -134,6 +134,8 @@ func main() {
 		os.Exit(cmdAppendSites(os.Args[2:]))
 	case "mutsites":
 		os.Exit(cmdMutSites(os.Args[2:]))
+	case "replay":
+		os.Exit(cmdReplay(os.Args[2:]))
 	default:
 		fmt.Fprintln(os.Stderr, "unknown command")
 		os.Exit(2)
